@@ -224,7 +224,10 @@ PROPS = {
     "C02": simprop(scenarios.c02, ["C01", "C02", "C06"], {"data": 50, "take": 20, "faults": 10}),
     "C05": simprop(scenarios.c05, ["C01", "C05", "C06"], {"frag": 100, "take": 20, "final": 20, "faults": 5}),
     "C03": simprop(scenarios.c03, ["C01", "C03", "C06"], {"waitacks": 30, "data": 50, "faults": 10}),
-    "C04": simprop(scenarios.c04, ["C01", "C04", "C06"], {"waithist": 10, "data": 50, "gap": 5, "final": 30}),
+    "C04": combine(simprop(scenarios.c04, ["C01", "C04", "C06"], {"waithist": 10, "data": 50, "gap": 5, "final": 30}),
+                   # a reader matched with several TRANSIENT_LOCAL writers: wait_for_historical_data needs the history of all of them
+                   simprop(scenarios.c04multi, ["C04"], {"scenarios": 6, "waitok": 6, "waittimeout": 3, "takes": 12},
+                           spec="Trace_Hist", mc=None, norm=tracenorm.normalise_hist)),
     "C27": combine(simprop(scenarios.c27, ["C01", "C27", "C31", "C06"], {"blockedwrite": 20, "data": 50}),
                    # which changes count as acknowledged (what a KEEP_LAST write may replace): the stateful writer driven directly,
                    # including ACKNACKs addressed to a sibling writer of the participant, from unknown / best-effort readers, stale counts
